@@ -7,7 +7,7 @@ CONSTANTS
   RelFpuOK = TRUE
   Labels = {"la", "lb"}
   MaxItems = 4
-  Fills = {1, 2, 126}
+  Fills = {1}
   AbsWidths = {4}
   EquOffs = {1}
   Orgs = {0}
